@@ -337,8 +337,17 @@ pub fn run(ctx: &Ctx, rep: &mut Report) {
         let keys = world.keys();
         let mode = MODES[(wi % 3) as usize];
         let mut t = Tok::new(&world.dict, mode);
-        for _ in 0..40 {
-            let text = textgen::text_from_keys(&mut rng, &keys, 8);
+        // output lists of on-demand splits: one that never held an analysis, one that holds the analysis of another text
+        let mut out_empty = sudachi::prelude::MorphemeList::empty(&world.dict);
+        let mut texts: Vec<String> = (0..40).map(|_| textgen::text_from_keys(&mut rng, &keys, 8)).collect();
+        if wi % 4 == 0 && world.plugins.default_input {
+            // normalisation that expands the text close to / beyond the 65,535-byte limit of the rewritten text while
+            // the input stays far below its own limit (U+337F: 3 bytes -> 12 bytes)
+            for n in [5400 + rng.below(60), 5461, 5462 + rng.below(100)] {
+                texts.push(format!("{}{}{}", rng.pick(&keys), "\u{337f}".repeat(n), rng.pick(&keys)));
+            }
+        }
+        for text in texts {
             rep.eval();
             match guard(|| t.run(&text)) {
                 Ok(Ok(())) => {}
@@ -352,7 +361,9 @@ pub fn run(ctx: &Ctx, rep: &mut Report) {
             let obs = match guard(|| observe(&t.list)) {
                 Ok(o) => o,
                 Err(p) => {
-                    rep.skipped_panic(&p, json!({"text": text, "stage": "accessors"}));
+                    // the analysis succeeded, but the offsets / surface of its morphemes cannot even be read
+                    rep.violation("code_point_offsets", &p.site, &format!("reading begin/end/surface of the morphemes of a successful analysis panics: {}", p.msg), "",
+                        json!({"world_index": wi, "text": clip(&text, 400), "text_bytes": text.len(), "mode": crate::scen::mode_name(mode), "world": world.describe(true)}));
                     continue;
                 }
             };
@@ -374,6 +385,66 @@ pub fn run(ctx: &Ctx, rep: &mut Report) {
                     break;
                 }
                 rep.count("morpheme_offsets_checked", 1);
+            }
+            if text.len() > 10_000 {
+                rep.count("expanding_inputs_near_the_limit_accepted", 1);
+            }
+            // morphemes obtained by splitting on demand, into lists of different provenance
+            if text.len() < 10_000 {
+                for (i, o) in obs.iter().enumerate() {
+                    for sm in [Mode::A, Mode::B] {
+                        for which in 0..2 {
+                            // (a new list every time: a list that was the target of a split shares the text of the list that was
+                            // split, so collecting another analysis into it would overwrite that text for both)
+                            let mut other = Tok::new(&world.dict, Mode::C);
+                            if which == 1 {
+                                let _ = guard(|| other.run("東京都に行く。abc"));
+                            }
+                            let r = guard(|| {
+                                if which == 0 {
+                                    out_empty.clear();
+                                    t.list.split_into(sm, i, &mut out_empty).map(|b| (b, observe(&out_empty)))
+                                } else {
+                                    // cleared, but still attached to the text of its own earlier analysis
+                                    other.list.clear();
+                                    t.list.split_into(sm, i, &mut other.list).map(|b| (b, observe(&other.list)))
+                                }
+                            });
+                            let scen = || json!({"world_index": wi, "text": text, "mode": crate::scen::mode_name(mode), "split_mode": crate::scen::mode_name(sm), "morpheme": i,
+                                "output_list": if which == 0 { "created empty" } else { "cleared list that held the result of another text" }, "world": world.describe(true)});
+                            match r {
+                                Ok(Ok((true, subs))) => {
+                                    let _ = o;
+                                    let mut bad = None;
+                                    for x in subs.iter().rev().take(8) {
+                                        if x.end > text.len() || x.begin > x.end || !text.is_char_boundary(x.begin) || !text.is_char_boundary(x.end) {
+                                            bad = Some(format!("sub-morpheme range {}..{} is not inside the text", x.begin, x.end));
+                                            break;
+                                        }
+                                        let eb = text[..x.begin].chars().count();
+                                        let ee = text[..x.end].chars().count();
+                                        if x.begin_c != eb || x.end_c != ee {
+                                            bad = Some(format!("sub-morpheme bytes {}..{} = code points {}..{}, reported {}..{}", x.begin, x.end, eb, ee, x.begin_c, x.end_c));
+                                            break;
+                                        }
+                                        let by_cp: String = chars[x.begin_c..x.end_c].iter().collect();
+                                        if by_cp != x.surface {
+                                            bad = Some(format!("slicing the text by the sub-morpheme's code points gives {:?}, its surface is {:?}", by_cp, x.surface));
+                                            break;
+                                        }
+                                        rep.count("split_morpheme_offsets_checked", 1);
+                                    }
+                                    if let Some(m) = bad {
+                                        rep.violation("code_point_offsets", "split_into", &m, "", scen());
+                                    }
+                                }
+                                Ok(Ok((false, _))) => {}
+                                Ok(Err(_)) => {}
+                                Err(p) => rep.violation("code_point_offsets", &p.site, &format!("reading the offsets of on-demand split results panics: {}", p.msg), "", scen()),
+                            }
+                        }
+                    }
+                }
             }
             if t.normalized != text && text.chars().any(|c| c.len_utf8() > 1) {
                 rep.count("tokenizations_rewritten_multibyte", 1);
